@@ -268,6 +268,7 @@ namespace
     // ---------------------------------------------------------------- igris::ring<T, Alloc>
     // ops: [0 push v] [1 emplace v] [2 pop] [3 write n v] [4 read n] [5 get_last offset count order] [6 fixup idx]
     //      [7 distance a b] [8 resize n] [9 reset] [10 clear] [11 last/tail/head queries] [12 external producer k v: fills k slots, set_last_index]
+    static inline bool r_same_cap(int64_t a, int cap) { return (int)kit::mod(a - 1, 66) + 1 == cap; }
     template <class T> struct TypedRingWorld : World
     {
         bool bytes; // T == char: read/write available
@@ -297,12 +298,12 @@ namespace
                 else if (k < 65) p.ops.push_back({5, (int64_t)r.below(cap + 1), (int64_t)r.below(cap + 1), (int64_t)r.below(2)});
                 else if (k < 78) p.ops.push_back({6, r.range(-3 * (cap + 1), 3 * (cap + 1))});
                 else if (k < 86) p.ops.push_back({7, (int64_t)r.below(cap + 1), (int64_t)r.below(cap + 1)});
-                else if (k < 89) p.ops.push_back({8, r.range(1, tier == THOROUGH ? 40 : 16)});
+                else if (k < 89) p.ops.push_back({8, r.chance(1, 3) ? (int64_t)cap : r.range(1, tier == THOROUGH ? 40 : 16)});
                 else if (k < 91) p.ops.push_back({9});
                 else if (k < 93) p.ops.push_back({10});
                 else if (k < 97) p.ops.push_back({11, (int64_t)r.below(1000)});
                 else if (k < 99) p.ops.push_back({12, r.chance(1, 2) ? (int64_t)cap + 1 : (int64_t)r.below(cap + 2), v});
-                else p.ops.push_back({13, v});
+                else p.ops.push_back({r.chance(1, 2) ? 13 : 14, v});
             }
             return p;
         }
@@ -341,7 +342,7 @@ namespace
                 check("init");
                 for (auto &o : p.ops)
                 {
-                    int kind = (int)mod(arg(o, 0), 14);
+                    int kind = (int)mod(arg(o, 0), 15);
                     int h0 = rg.head_index(), t0 = rg.tail_index();
                     switch (kind)
                     {
@@ -466,8 +467,13 @@ namespace
                     }
                     case 8:
                     {
-                        // elements live in the ring die with the old buffer (trivial T): drain first, as a caller must
-                        while (!m.empty()) { rg.pop(); m.pop_front(); }
+                        // elements live in the ring die with the old buffer: a caller holding elements with a throwing / counted
+                        // constructor drains first; plain samples may simply be dropped by the resize (every other time)
+                        if (std::is_same<T, FInt>::value || mod(arg(o, 1), 2) == 0)
+                            while (!m.empty()) { rg.pop(); m.pop_front(); }
+                        else if (!m.empty()) probe("resize_of_non_empty_ring");
+                        m.clear();
+                        if (r_same_cap(arg(o, 1), cap)) probe("resize_to_same_capacity");
                         cap = (int)mod(arg(o, 1) - 1, 66) + 1;
                         rg.resize((size_t)cap);
                         hist.clear();
@@ -535,6 +541,29 @@ namespace
                         }
                         probe("ring_copied");
                         tr.ev("copy %zu", want.size());
+                        break;
+                    }
+                    case 14:
+                    {
+                        // assignment between two rings of the same capacity: the target takes over the source's elements (all of them,
+                        // whatever it held before). Both rings use the default allocator: the unchanged assignment does not release
+                        // the target's old block, and memory balance is outside C03.
+                        if constexpr (!std::is_same<T, FInt>::value)
+                        {
+                            igris::ring<T> a(cap), b(cap);
+                            int rot = (int)mod(arg(o, 1), cap + 1);
+                            for (int q = 0; q < rot; q++) { a.push(val(q, 1)); a.pop(); } // move the source's window round the storage
+                            for (auto &e : m) a.push(e);
+                            for (int q = 0; q < cap; q++) b.push(val(1000 + q, 2));
+                            b = a;
+                            if (b.avail() != m.size()) violate("C03/assign", "a ring assigned from a ring holding %zu elements reports %u", m.size(), b.avail());
+                            for (size_t q = 0; q < m.size(); q++)
+                            {
+                                if (b.tail() != m[q]) violate("C03/assign", "element %zu read from a ring assigned from another differs from what was written to the source", q);
+                                b.pop();
+                            }
+                            probe("ring_assigned");
+                        }
                         break;
                     }
                     case 12:
